@@ -32,7 +32,7 @@ func vpContainsFold(hay, needle string) bool {
 // ASCII-case-insensitive substring.  The phrases are concrete (enumerated from a pool), the
 // input bytes are symbolic.
 func VpC15Pm() {
-	pool := []string{"ab", "b", "Abc", "ba", "a-", "zz"}
+	pool := []string{"ab", "b", "Abc", "\xc3\x89", "ba", "a-", "zz"} // the fourth phrase is "É": no ASCII letter in it
 	np := vp.Param("P", 3)
 	p1 := pool[vp.Choice("p1", np)]
 	p2 := pool[vp.Choice("p2", np)]
